@@ -277,8 +277,8 @@ func run(c *vf.Ctx) {
 	c.Assume("ready-target wake-ups are judged on logical stamps only: a closed channel needs a Signal(>=target) call that began before the wake was observed (and was not wiped by a Reset completed before Subscribe began); an open channel is a violation only when a sufficient Signal certainly took effect while the subscriber was registered and no Reset could have dropped it")
 	c.Assume("progress (wall clock, used only here): blocking acquirers are released after every holder left; <=2 s held, 2-10 s or a heartbeat gap >=0.5 s inconclusive, still blocked after 10 s with a healthy heartbeat = violation")
 
-	nCases := c.N(150, 5000)
-	chunk := c.N(10, 50)
+	nCases := c.N(150, 1500)
+	chunk := c.N(10, 25)
 	par := 4
 	tmp := vf.TempDir("c34")
 	defer os.RemoveAll(tmp)
